@@ -280,3 +280,39 @@ def _raw_use(expr, raw, par):
         if not ok_:
             return True
     return False
+
+
+
+REFERENCE_SPELLINGS = {"type", "dimension_type", "header_type", "value_ref"}
+
+
+def check_dependency_names(chk):
+    """G-FLOW.e: a generated header includes `types/<name>.hpp` for every type it depends on; the files are written
+    under the *declared* names while SBE resolves references case-insensitively, so what is registered as a dependency
+    must be a declared name (`enc.name`, `get_encoding_name(enc)`), never the spelling of a reference (`f.type`,
+    `r.type`, `g.dimension_type`, `schema.header_type`)"""
+    f = gen.facts()
+    n = 0
+    for fn in gen.sbeppc_functions(f):
+        for x in walk(fn["body"]):
+            c = x.get("callee") or {}
+            if x.get("k") != "CXXMemberCallExpr" or c.get("name") not in ("emplace", "insert") or x.get("obj") is None:
+                continue
+            if "dependencies" not in gen.expr_text(x["obj"], 0, fn):
+                continue
+            n += 1
+            args = x.get("args") or []
+            bad = [y.get("name") for a in args for y in walk(a) if y.get("k") == "MemberExpr" and y.get("dk") == "Field" and y.get("name") in REFERENCE_SPELLINGS]
+            # a spelling used only as the key of a lookup (get_schema_encoding(schema, f.type).name) is fine
+            looked_up = any((y.get("callee") or {}).get("name") in ("get_schema_encoding", "get_schema_encoding_as", "get_encoding", "get_encoding_name")
+                            for a in args for y in walk(a))
+            key = "dependency:%s#%s" % (gen.short(fn), x.get("l"))
+            where = "%s:%s" % (rel(fn["file"]), x.get("l"))
+            if bad and not looked_up:
+                chk.violation("G-FLOW.e", "dependency:%s" % gen.short(fn), where,
+                              "%s registers the reference spelling `%s` as an include dependency: with a reference written in "
+                              "another letter case than the declaration (legal in SBE) the generated header includes a file that "
+                              "does not exist" % (gen.short(fn), ", ".join(bad)))
+            else:
+                chk.ok("G-FLOW.e", key, {"where": where, "argument": gen.expr_text(args[0], 0, fn)[:80] if args else ""})
+    chk.floor("dependency registrations", n, 4)
